@@ -654,8 +654,70 @@ def run(ctx):
             if c.oracle:
                 judge(ctx, c, o, ans, exc)
         climate_load(ctx, impl)
+        reassign_histories(ctx, impl, rng, quick)
     finally:
         shutil.rmtree(tmp, ignore_errors=True)
+
+
+def reassign_histories(ctx, impl, rng, quick):
+    """oracle only: a network that already went through a file / an igraph object gets new
+    node weights and a new link attribute and is saved again — the second file must hold the
+    *current* weights and attributes (every path, repeated)."""
+    import igraph
+    from pyunicorn.core import Network
+    for rep in range(6 if quick else 40):
+        N = rng.randrange(3, 8)
+        A = np.zeros((N, N), dtype=int)
+        for i in range(N):
+            for j in range(i):
+                if rng.random() < 0.5:
+                    A[i, j] = A[j, i] = 1
+        if A.sum() == 0:
+            A[0, 1] = A[1, 0] = 1
+        w1 = np.array([rng.randrange(1, 9) / 4 for _ in range(N)])
+        w2 = np.array([rng.randrange(9, 17) / 4 for _ in range(N)])
+        V2 = np.triu((np.random.RandomState(rep).randint(1, 9, (N, N)) / 4) * A, 1)
+        V2 = V2 + V2.T
+        fmt = rng.choice(["graphml", "graphmlz", "pickle"])
+        start = rng.choice(["saveload", "fromigraph", "copy"])
+        try:
+            with contextlib.redirect_stdout(io.StringIO()):
+                net = Network(adjacency=A, node_weights=w1, silence_level=3)
+                f1, f2 = impl.path(fmt), impl.path(fmt)
+                if start == "saveload":
+                    Network.save(net, f1, fmt)
+                    net = Network.Load(f1, fmt, silence_level=3)
+                elif start == "fromigraph":
+                    Network.save(net, f1, fmt)      # stores the weights on the graph
+                    net = Network.FromIGraph(net.graph, silence_level=3)
+                else:
+                    net = net.copy()
+                net.node_weights = w2
+                net.set_link_attribute(ATTR, V2)
+                Network.save(net, f2, fmt)
+                back = Network.Load(f2, fmt, silence_level=3)
+                o1, o2 = observe(net), observe(back)
+        except Exception as e:  # noqa
+            ctx.fail({"kind": "raise", "cls": "net", "op": "reassign-then-saveload",
+                      "error": type(e).__name__},
+                     f"reassigning weights after {start} and saving again raised {type(e).__name__}: {e}",
+                     {"adjacency": A.tolist(), "format": fmt, "start": start})
+            continue
+        ctx.case(("reassign", A.tobytes().hex(), fmt, start), True,
+                 {"history": [start, "node_weights = w2", "set_link_attribute", "save", "Load"],
+                  "format": fmt})
+        ctx.count("op:reassign-then-saveload")
+        exp = {"node_weights": [exact(x) for x in w2], "total_node_weight": exact(w2.sum())}
+        for k in OBS:
+            want = exp.get(k, o1[k])
+            if not close(o2[k], want):
+                ctx.fail({"kind": "mismatch", "cls": "net", "op": "reassign-then-saveload",
+                          "observable": k},
+                         f"after {start}; node_weights = w2; save({fmt}); Load: {k} = {o2[k]!r} "
+                         f"but the saved network has {want!r}",
+                         {"adjacency": A.tolist(), "w1": w1.tolist(), "w2": w2.tolist(),
+                          "format": fmt, "start": start, "observable": k})
+                break
 
 
 def climate_load(ctx, impl):
